@@ -97,6 +97,7 @@ var loopStateConfirmed = map[string]map[string]string{
 	"json.appendStructFields":              {"embedded": "embedded fields collected so far, promoted after the loop"},
 	"json.appendToLower":                   {"b": "output buffer", "i": "start of the not yet copied segment"},
 	"json.fmtFrac":                         {"w": "write position, moves right to left"},
+	"json.foldRune":                        {"lower": "smallest lower-case rune seen so far in the case orbit", "min": "smallest rune seen so far in the case orbit"},
 	"proto.(MessageRewriter).Rewrite":      {"out": "output buffer", "seen": "bitset of the template fields already emitted"},
 	"proto.parseRewriteTemplateStruct":     {"message": "rewriters collected so far", "rewriters": "rewriters collected so far"},
 	"proto.structCodecOf":                  {"fields": "fields collected so far", "number": "implicit field number: advances once per exported field"},
